@@ -116,6 +116,9 @@ def run(repo, rep):
     sr = [s_ for s_ in ast.walk(cw) if isinstance(s_, ast.Assign) and norm(s_.targets[0]) == "scale_region"]
     rep.check(len(sr) == 1 and "get_region(scale_tensor.mem_type, arch)" in str(norm(sr[0].value)), "C02-k", "ethosu/vela/high_level_command_to_npu_op.py:create_weights",
               "scale_region = get_region(scale_tensor.mem_type, arch)", (str(norm(sr[0].value)) if sr else "") + ": SCALE_BASE stays an offset in the scale tensor's region while SCALE_REGION names another one")
+    rep.clause("C02-m", "after a Reshape has been bypassed the producer keeps its own view of the OFM: no rewrite that runs later re-derives an operator's OFM shape from a tensor that the bypass may have re-shaped "
+               "(necessary: the operator addresses its IFM with coordinates of its OFM shape) [rule shared with C03-i]")
+    rule_shape_view(repo, rep)
     rep.clause("C02-i", "byte offsets computed by graph rewrites use each tensor dimension in its layout position: 4-element shape unpackings name N,H,W,C (feature maps) / H,W,I,O (weights) in order")
     rule_shape_unpack(repo, rep)
 
@@ -557,3 +560,197 @@ def rule_round5(repo, rep):
     rep.check(not missing, "C02-l", "ethosu/vela/high_level_command_to_npu_op.py:create_npu_elementwise_op", "the operand exchange swaps tensors, boxes and the pass's operand shapes together",
               f"not exchanged: {missing}: the feature maps created afterwards take the other operand's shape, i.e. the big operand's strides on the small tensor (read beyond the tensor and, at the top of the arena, beyond the region)")
     rep.floor("C02-l", 3)
+
+
+# ---------------------------------------------------------------------------------------------------------------- C02-m
+_VIEW_CREATORS = ("create_add", "create_sub", "create_mul", "create_lrelu", "create_clz", "create_shl", "create_shr", "create_asr", "create_rescale_add", "create_relu", "create_binary_elementwise",
+                  "create_avgpool_nop", "create_depthwise_maxpool", "create_cast_op", "create_add_nop", "create_memcpy", "create_pad_nop", "create_fused_activation", "create_fullyconnected")
+
+
+def _pipeline(go):
+    """The passes of tflite_optimise_graph in order: list of lists of rewrite-function names."""
+    tf = go.func("tflite_optimise_graph")
+    lists = {}
+    passes = []
+    for st in ast.walk(tf):
+        if isinstance(st, ast.Assign) and len(st.targets) == 1 and isinstance(st.targets[0], ast.Name) and isinstance(st.value, ast.List):
+            lists[st.targets[0].id] = (st.lineno, [e for e in st.value.elts])
+    for c in sorted((c for c in ast.walk(tf) if isinstance(c, ast.Call) and call_name(c) in ("rewrite_graph.rewrite_graph_pre_order", "rewrite_graph.visit_graph_post_order")), key=lambda c: c.lineno):
+        names = []
+        for a in c.args:
+            elts = None
+            if isinstance(a, ast.List):
+                elts = a.elts
+            elif isinstance(a, ast.Name) and a.id in lists:
+                elts = lists[a.id][1]
+            for e in elts or []:
+                if isinstance(e, ast.Name):
+                    names.append(e.id)
+                elif isinstance(e, ast.Call) and isinstance(e.func, ast.Name):
+                    names.append(e.func.id)
+        passes.append((c.lineno, names))
+    return tf, passes
+
+
+# Reviewed sites of the inconsistent-view hazard whose demonstrated effect concerns some properties only (anything not listed here is
+# reported under C02, C03 and C13 alike)
+_VIEW_SCOPE = {
+    "convert_prelu": ({"C13"}, "every operator the rewrite builds with the inconsistent view is a binary elementwise operator, for which generate_ifm2_broadcast asserts: the compilation aborts (C13), nothing is emitted"),
+    "convert_resizebilinear_to_depthwise_convolutions": ({"C02", "C13"}, "demonstrated as an OFM write outside the region (C02) and as an abort (C13); no read of an undefined byte was demonstrated"),
+    "convert_lrelu_to_mul_max": ({"C02", "C03"}, "demonstrated as an IFM read beyond the tensor (C02, C03); no abort was demonstrated"),
+}
+
+
+def m_parent_if(mod, node, fn):
+    """The innermost `if` statement of `fn` that contains `node`, None if there is none."""
+    cur = mod.parents.get(node)
+    while cur is not None and cur is not fn:
+        if isinstance(cur, ast.If):
+            return cur
+        cur = mod.parents.get(cur)
+    return None
+
+
+def rule_shape_view(repo, rep, rule="C02-m"):
+    """After bypass_memory_only_ops a producer writes the tensor of the bypassed Reshape: the tensor carries the consumers' shape, the
+    operator keeps its own view in `ofm_shapes`. Typestate over the pass pipeline: in every rewrite that runs after the bypass, an operator
+    that keeps (or takes over) the OFM tensor of the operator handed to the rewrite must not have its OFM shape re-derived from that
+    tensor (`set_ifm_ofm_shapes()` without a following assignment to `ofm_shapes`)."""
+    go = repo.mod("tflite_graph_optimiser")
+    tf, passes = _pipeline(go)
+    bp = [i for i, (_, names) in enumerate(passes) if "bypass_memory_only_ops" in names]
+    if len(bp) != 1:
+        raise AnalysisError("tflite_optimise_graph: the pass that runs bypass_memory_only_ops was not found exactly once")
+    post = [n for _, names in passes[bp[0] + 1:] for n in names]
+    if len(post) < 25:
+        raise AnalysisError(f"tflite_optimise_graph: only {len(post)} rewrites after the Reshape bypass (expected >= 25)")
+    mods = [go, repo.mod("lut"), repo.mod("graph_optimiser_util")]
+
+    def find(name):
+        for m in mods:
+            if name in m.functions:
+                return m, m.functions[name]
+        return None
+
+    # (function, handed parameter) pairs reachable from the post-bypass rewrites by passing the handed operator on
+    work = []
+    for n in post:
+        f = find(n)
+        if f and f[1].args.args:
+            work.append((f[0], f[1], f[1].args.args[0].arg))
+    seen = set()
+    sites = []
+    nfun = 0
+    while work:
+        m, fn, p = work.pop()
+        if (fn.name, p) in seen:
+            continue
+        seen.add((fn.name, p))
+        nfun += 1
+        handed = {p}
+        ofm_alias = set()
+        for st in ast.walk(fn):
+            if isinstance(st, ast.Assign) and len(st.targets) == 1:
+                t, v = st.targets[0], st.value
+                vt = str(norm(v))
+                if isinstance(t, ast.Name) and vt in {f"{h}.ofm" for h in handed} | {f"{h}.outputs[0]" for h in handed} | {f"{h}.outputs" for h in handed}:
+                    ofm_alias.add(t.id)
+                if isinstance(t, ast.Tuple) and isinstance(v, ast.Call) and isinstance(v.func, ast.Attribute) and str(norm(v.func.value)) in handed and v.func.attr.startswith("get_ifm") and v.func.attr.endswith("ofm"):
+                    if isinstance(t.elts[-1], ast.Name):
+                        ofm_alias.add(t.elts[-1].id)
+        alias_txt = ofm_alias | {f"{h}.ofm" for h in handed} | {f"{h}.outputs[0]" for h in handed} | {f"{h}.outputs" for h in handed}
+
+        def new_output_before(recv, line):
+            """Expressions given to the receiver as its output before `line`, in source order."""
+            found = []
+            for c in ast.walk(fn):
+                if isinstance(c, ast.Call) and isinstance(c.func, ast.Attribute) and c.func.attr == "set_output_tensor" and str(norm(c.func.value)) == recv and c.lineno < line and c.args:
+                    found.append((c.lineno, str(norm(c.args[0]))))
+                if isinstance(c, ast.Assign) and str(norm(c.targets[0])) == recv + ".outputs" and c.lineno < line:
+                    v = c.value
+                    found.append((c.lineno, str(norm(v.elts[0])) if isinstance(v, ast.List) and len(v.elts) == 1 else str(norm(v))))
+            return [t for _, t in sorted(found)]
+
+        def restored_after(recv, call):
+            blk = m.parents.get(m.parents.get(call))
+            for st in ast.walk(fn):
+                if isinstance(st, ast.Assign) and st.lineno > call.lineno and str(norm(st.targets[0])) in (recv + ".ofm_shapes", recv + ".ofm_shapes[0]"):
+                    return True
+            return False
+
+        for c in ast.walk(fn):
+            if not isinstance(c, ast.Call):
+                continue
+            cn = call_name(c) or ""
+            if isinstance(c.func, ast.Attribute) and c.func.attr == "set_ifm_ofm_shapes":
+                recv = str(norm(c.func.value))
+                outs = list(new_output_before(recv, c.lineno))
+                if recv in handed:
+                    hazard = not outs or outs[-1] in alias_txt
+                else:
+                    hazard = bool(outs) and outs[-1] in alias_txt
+                if hazard and not restored_after(recv, c):
+                    sites.append((m, fn, recv, c, "keeps" if recv in handed else "takes over"))
+            elif cn.split(".")[-1] in _VIEW_CREATORS and any(str(norm(a)) in alias_txt for a in list(c.args) + [k.value for k in c.keywords]):
+                # the creator derives the new operator's shapes from the tensors it is given
+                tgt = m.parents.get(c)
+                recv = str(norm(tgt.targets[0])) if isinstance(tgt, ast.Assign) else None
+                if not (recv and restored_after(recv, c)):
+                    sites.append((m, fn, cn, c, "takes over"))
+            elif isinstance(c.func, ast.Attribute) and c.func.attr == "clone" and str(norm(c.func.value)) in alias_txt:
+                # an intermediate feature map cloned from the handed OFM tensor carries that tensor's (possibly re-shaped) shape
+                tgt = m.parents.get(c)
+                nm = str(norm(tgt.targets[0])) if isinstance(tgt, ast.Assign) else "?"
+                reshaped = any(isinstance(st, ast.Assign) and str(norm(st.targets[0])) in (nm + ".shape",) for st in ast.walk(fn)) or any(
+                    isinstance(c2, ast.Call) and isinstance(c2.func, ast.Attribute) and c2.func.attr == "set_all_shapes" and str(norm(c2.func.value)) == nm for c2 in ast.walk(fn))
+                if not reshaped:
+                    sites.append((m, fn, nm, c, "is cloned from"))
+            elif isinstance(c.func, ast.Name):
+                f2 = find(c.func.id)
+                if f2:
+                    for i, a in enumerate(c.args):
+                        if isinstance(a, ast.Name) and a.id in handed and i < len(f2[1].args.args):
+                            work.append((f2[0], f2[1], f2[1].args.args[i].arg))
+    if rep is None:
+        return nfun, sites
+    where = {
+        "convert_to_lut": "demonstrated: LOGISTIC / TANH / HARD_SWISH / LEAKY_RELU / EXP on [1,24,16,4] followed by RESHAPE to [1,384,1,4]: IFM read [0,22980) of a 3072-byte tensor",
+        "replace_pad_by_hw_pad": "demonstrated: PAD + CONV_2D followed by RESHAPE: IFM read [0,22984) of a 3344-byte region",
+        "convert_resize_to_upscale_and_average_pool": "demonstrated: RESIZE_BILINEAR / RESIZE_NEAREST_NEIGHBOR x2 followed by RESHAPE: IFM read [0,47556) of a 7680-byte tensor",
+        "convert_resize_1x1_to_add": "demonstrated: RESIZE_BILINEAR of a 1x1 input followed by RESHAPE: IFM read [0,22980) of a 1536-byte constant region",
+        "fixup_relus_with_differing_ifm_ofm_scaling": "demonstrated: RELU with differing scales followed by RESHAPE: IFM read [0,22980) of a 3072-byte tensor",
+        "convert_squared_difference": "demonstrated: SQUARED_DIFFERENCE followed by RESHAPE: IFM read [0,367632) of a 50752-byte tensor",
+        "convert_prelu": "demonstrated: PRELU [1,24,16,4] followed by RESHAPE to [1,384,1,4] aborts with an AssertionError in generate_ifm2_broadcast",
+        "convert_resizebilinear_to_depthwise_convolutions": "demonstrated: RESIZE_BILINEAR x2 half_pixel_centers of [1,24,16,4] followed by RESHAPE to [1,24,64,4]: OFM write [6144,18044) of a 12416-byte tensor; RESHAPE to [1,1536,1,4]: AssertionError in NpuStripe",
+        "convert_lrelu_to_mul_max": "demonstrated: int16 LEAKY_RELU with differing scales followed by RESHAPE: IFM read [0,45960) of a 27648-byte tensor",
+    }
+    prop = rule.split("-")[0]
+    for m, fn, recv, c, how in sites:
+        scope = _VIEW_SCOPE.get(fn.name)
+        if scope is not None and prop not in scope[0]:
+            rep.ok(rule, f"{m.rel}:{fn.name}", f"`{recv}` {how} the OFM tensor of the handed operator [inconsistent view, outside this property: {scope[1]}]")
+            continue
+        rep.bad(rule, f"{m.rel}:{fn.name}", f"`{recv}` {how} the OFM tensor of the operator handed to the rewrite and its OFM shape is not re-derived from that tensor after the Reshape bypass",
+                f"`{str(norm(c))[:70]}` with no following assignment to `{'ofm_shapes' if how != 'is cloned from' else recv + '.shape'}`: when the Reshape behind the operator has been bypassed the tensor has the consumers' shape, the operator then "
+                f"iterates its OFM in that shape and addresses its IFM with it ({where.get(fn.name, 'same mechanism as the demonstrated sites')})")
+    rep.ok(rule, "ethosu/vela/tflite_graph_optimiser.py:tflite_optimise_graph", f"{len(post)} rewrites run after bypass_memory_only_ops; {nfun} (function, handed operator) pairs followed")
+    # the helper the repaired sites use: it must hand back the OFM shapes it found
+    opm = repo.mod("operation")
+    if "Operation.set_ifm_shapes" in opm.functions:
+        sf = opm.functions["Operation.set_ifm_shapes"]
+        saved = [st for st in sf.body if isinstance(st, ast.Assign) and str(norm(st.value)) == "self.ofm_shapes" and isinstance(st.targets[0], ast.Name)]
+        recomputed = [c for c in ast.walk(sf) if isinstance(c, ast.Call) and str(norm(c.func)) == "self.set_ifm_ofm_shapes"]
+        ok = False
+        if len(saved) == 1 and len(recomputed) == 1 and saved[0].lineno < recomputed[0].lineno:
+            nm = saved[0].targets[0].id
+            restores = [st for st in ast.walk(sf) if isinstance(st, ast.Assign) and str(norm(st.targets[0])) == "self.ofm_shapes" and st.lineno > recomputed[0].lineno]
+            ok = len(restores) == 1 and str(norm(restores[0].value)) in (nm, f"list({nm})")
+            if ok:
+                # the restore may only be guarded by the saved value itself (an operator that never had shapes keeps the derived ones)
+                g = m_parent_if(opm, restores[0], sf)
+                ok = g is None or str(norm(g.test)) in (nm, f"len({nm}) > 0", f"{nm} != []")
+        users = sum(1 for m2 in mods for c in ast.walk(m2.tree) if isinstance(c, ast.Call) and isinstance(c.func, ast.Attribute) and c.func.attr == "set_ifm_shapes")
+        rep.check(ok, rule, "ethosu/vela/operation.py:Operation.set_ifm_shapes", f"saves self.ofm_shapes, re-derives the shapes, hands the saved OFM shapes back ({users} call sites)",
+                  "the helper that the rewrites after the Reshape bypass rely on no longer keeps the operator's own OFM shape")
+    rep.floor(rule, 1)
+    return nfun, sites
